@@ -88,6 +88,46 @@ def rule_miu(report, prog):
                      'a PDU can be created for a message longer than send_miu', fmt(cfg, p))
 
 
+def rule_miu_writes(report, prog, rule='C05-R2', floor=6):
+    """The connection MIU (send_miu of a data link connection) comes from the peer's CONNECT / CC PDU; the link controller may
+    copy the link MIU into a socket only when the socket is a raw access point or logical data link, or to reduce the value."""
+    n = 0
+    for f in prog.functions.values():
+        if not f.qname.startswith('nfc.llcp.') or f.qname.startswith('nfc.llcp.tco.'):
+            continue
+        cfg = None
+        for st in walk_no_nested(f.node):
+            if not (isinstance(st, ast.Assign) and len(st.targets) == 1 and isinstance(st.targets[0], ast.Attribute) and st.targets[0].attr == 'send_miu'):
+                continue
+            n += 1
+            obj = norm(st.targets[0].value)
+            cfg = cfg or cfg_of(f)
+            node = cfg_node_for(cfg, st)
+            passing = []
+            for e, tn in cfg.test_nodes.items():
+                t = norm(e)
+                if t in ('isinstance(%s, tco.RawAccessPoint)' % obj, 'isinstance(%s, tco.LogicalDataLink)' % obj,
+                         'isinstance(%s, (tco.RawAccessPoint, tco.LogicalDataLink))' % obj, 'isinstance(%s, (tco.LogicalDataLink, tco.RawAccessPoint))' % obj):
+                    passing.append((tn, 'true'))
+                if t == '%s.send_miu > %s' % (obj, norm(st.value)):
+                    passing.append((tn, 'true'))
+            okk = bool(passing) and node not in cfg.reachable(cfg.entry, avoid_edges=passing)
+            report.check(okk, rule, key(f.qname, 'link MIU is copied into a socket only for connection-less sockets or to reduce the value', st), f.loc(st),
+                         '%s: `%s` can execute for a data link connection socket and raise its MIU above the value the peer announced in CONNECT / CC: '
+                         'a message longer than the connection MIU is then accepted and sent' % (f.qname, norm(st)))
+    # inside tco the connection MIU is written from the received PDU only
+    for q in (DLC + '._enqueue_state_connect', DLC + '.accept', DLC + '.enqueue', DLC + '._enqueue_state_listen'):
+        f = prog.functions.get(q)
+        if f is None:
+            continue
+        for st in walk_no_nested(f.node):
+            if isinstance(st, ast.Assign) and len(st.targets) == 1 and isinstance(st.targets[0], ast.Attribute) and st.targets[0].attr == 'send_miu':
+                n += 1
+                report.check(norm(st.value) == 'rcvd_pdu.miu', rule, key(q, 'connection MIU is taken from the received CONNECT / CC PDU', st), f.loc(st),
+                             '%s: %s does not take the MIU from the received PDU' % (q, norm(st)))
+    report.floor(rule + ' send_miu writes', n, floor)
+
+
 def rule_sequence(report, prog):
     f = prog.func(DLC + '._enqueue_state_established')
     cfg = cfg_of(f)
@@ -250,6 +290,7 @@ def rule_fifo(report, prog):
 def run(report, prog, tier):
     rule_window(report, prog)
     rule_miu(report, prog)
+    rule_miu_writes(report, prog)
     rule_sequence(report, prog)
     rule_mod16(report, prog)
     rule_lock(report, prog)
@@ -281,11 +322,18 @@ MUTANTS = [
     ('send-miu-check-dropped', T, """            if len(message) > self.send_miu:
                 raise err.Error(errno.EMSGSIZE)
             while""", """            while""", 'C05-R2'),
-    ('ldl-miu-off-by-one', T, """        if len(message) > self.send_miu:
-            raise err.Error(errno.EMSGSIZE)
-        send_pdu = pdu.UnnumberedInformation""", """        if len(message) > self.send_miu + 1:
-            raise err.Error(errno.EMSGSIZE)
-        send_pdu = pdu.UnnumberedInformation""", 'C05-R2'),
+    ('ldl-miu-off-by-one', T, """            if len(message) > self.send_miu:
+                raise err.Error(errno.EMSGSIZE)
+            send_pdu = pdu.UnnumberedInformation""", """            if len(message) > self.send_miu + 1:
+                raise err.Error(errno.EMSGSIZE)
+            send_pdu = pdu.UnnumberedInformation""", 'C05-R2'),
+    ('dlc-miu-overwritten-by-link-miu', 'nfc.llcp.llc', """        if isinstance(socket, tco.DataLinkConnection):
+            return socket.send(message, flags)""", """        if isinstance(socket, tco.DataLinkConnection):
+            socket.send_miu = self.cfg['send-miu']
+            return socket.send(message, flags)""", 'C05-R2'),
+    ('connect-miu-raised-to-link-miu', 'nfc.llcp.llc', """        if socket.send_miu > self.cfg['send-miu']:
+            log.warning("reducing outbound miu to not exceed the link miu")""", """        if socket.send_miu < self.cfg['send-miu']:
+            log.warning("reducing outbound miu to not exceed the link miu")""", 'C05-R2'),
     ('ns-check-dropped', T, """            elif rcvd_pdu.ns != self.recv_cnt:
                 frmr = pdu.FrameReject.from_pdu(rcvd_pdu, flags="S", dlc=self)
 """, "", 'C05-R3'),
